@@ -44,6 +44,7 @@ static struct nv_csearch nv_cs_make(const struct nv_function* f)
 {
   struct nv_csearch c; c.m_m1 = nv_nondet_double(); c.m_m2 = nv_nondet_double(); c.m_m3 = nv_nondet_double(); c.m_m4 = nv_nondet_double();
   c.m_interpol = nv_nondet_double(); c.m_extrapol = nv_nondet_double();
+  nv_status_at = 0;
   c.m_point.m_t = 1.0; c.m_point.m_status = NVE_csearch_status_failed; c.m_point.m_y = nv_vec_fresh(); c.m_point.m_gy = nv_vec_fresh(); c.m_point.m_fy = 0.0;
   return c;
 }
@@ -82,18 +83,78 @@ __CPROVER_ensures((NV_PT.m_status == NVE_csearch_status_converged && nv_status_a
 __CPROVER_ensures(!NV_ISFIN(NV_PT.m_fy) ==> NV_PT.m_status == NVE_csearch_status_failed) \
 /* C02: a status that makes a claim about the returned point (a step to take, convergence) was decided for that point: it was written \
  * in this call, after the last evaluation (failed / max_iters claim nothing about the point). \
- * REFUTED on the library as it is (genuine defect, replay/C02_rqb_replay.cpp): m_point.m_status is not reset at entry, so when the \
- * budget test ends the loop after a `continue` / new trial the status of the PREVIOUS call is returned with the new point */ \
+ * This clause was refuted before the library repair 778c4d3 (genuine defect, replay/C02_rqb_replay.cpp): m_point.m_status was not \
+ * reset at entry, so when the budget test ended the loop after a `continue` / new trial the status of the PREVIOUS call came back \
+ * with the new point (RQB then moved to a trial point that was not accepted and returned a value above the starting one) */ \
 __CPROVER_ensures((NV_STEP(NV_PT.m_status) || NV_PT.m_status == NVE_csearch_status_converged) ==> nv_status_at == nv_ver_counter) \
 /* the proximity centre is not moved; budget: at most one evaluation beyond max_evals */ \
 __CPROVER_ensures(bundle->m_x.id == __CPROVER_old(bundle->m_x.id) && NV_SAME(bundle->m_fx, __CPROVER_old(bundle->m_fx)) && bundle->ver != 0) \
-__CPROVER_ensures(nv_ver_counter > __CPROVER_old(nv_ver_counter) && nv_gcount <= nv_ver_counter && nv_ver_counter < 2000000000u && nv_ver_counter + nv_gcount < (uint64_t)max_evals + 2) \
-__CPROVER_ensures(nv_w_bver == bundle->ver && nv_w_bsolved == bundle->solved_ver)
+__CPROVER_ensures(nv_ver_counter > __CPROVER_old(nv_ver_counter) && nv_gcount - __CPROVER_old(nv_gcount) == nv_ver_counter - __CPROVER_old(nv_ver_counter) && nv_gcount <= nv_ver_counter && nv_ver_counter < 2000000000u && nv_ver_counter + nv_gcount < (uint64_t)max_evals + 2) \
+__CPROVER_ensures(nv_w_bver == bundle->ver && nv_w_bsolved == bundle->solved_ver && nv_w_centre == bundle->m_x.id && NV_SAME(nv_w_centre_fx, bundle->m_fx) && nv_status_at <= nv_ver_counter)
 #define NV_LOOP_csearch_search_1 \
 __CPROVER_assigns(self->m_point, tL, tR, bundle->ver, bundle->solved_ver, nv_ver_counter, nv_gcount, nv_econv, nv_sconv, nv_status_at, nv_w_bver, nv_w_bsolved, nv_w_centre, nv_w_centre_fx) \
 __CPROVER_loop_invariant(nv_gcount <= nv_ver_counter && nv_ver_counter < 2000000000u && nv_ver_counter + nv_gcount < (uint64_t)max_evals + 2 && nv_status_at <= __CPROVER_loop_entry(nv_ver_counter) && NV_PT.m_status == __CPROVER_loop_entry(NV_PT.m_status)) \
 __CPROVER_loop_invariant(nv_ver_counter >= __CPROVER_loop_entry(nv_ver_counter) && nv_gcount - __CPROVER_loop_entry(nv_gcount) == nv_ver_counter - __CPROVER_loop_entry(nv_ver_counter)) \
 __CPROVER_loop_invariant(bundle->m_x.id == __CPROVER_loop_entry(bundle->m_x.id) && NV_SAME(bundle->m_fx, __CPROVER_loop_entry(bundle->m_fx)) && bundle->ver != 0) \
-__CPROVER_loop_invariant(nv_ver_counter > __CPROVER_loop_entry(nv_ver_counter) ==> (NV_TRIPLE(NV_PT.m_y, NV_PT.m_gy, NV_PT.m_fy) && NV_ISFIN(NV_PT.m_fy) && nv_w_bver == bundle->ver && nv_w_bsolved == bundle->solved_ver)) \
+__CPROVER_loop_invariant(nv_ver_counter > __CPROVER_loop_entry(nv_ver_counter) ==> (NV_TRIPLE(NV_PT.m_y, NV_PT.m_gy, NV_PT.m_fy) && NV_ISFIN(NV_PT.m_fy) && nv_w_bver == bundle->ver && nv_w_bsolved == bundle->solved_ver && nv_w_centre == bundle->m_x.id && NV_SAME(nv_w_centre_fx, bundle->m_fx))) \
 __CPROVER_decreases((uint64_t)max_evals + 100 - nv_ver_counter - nv_gcount)
+
+/* ---- solver_rqb_t::do_minimize / base_solver_fpba_t<tsequence>::do_minimize
+ * C02: status in {converged, max_iters, failed}; the reported (x, g, f) is one evaluation; counts; unless failed the value and
+ *      the point are finite; budget (search may run one evaluation over, fpba adds one per outer iteration);
+ *      fpba keeps the best point with update_if_better: the value never exceeds the starting value.  (RQB moves its state
+ *      with state.update on descent steps: f <= f0 then rests on delta >= 0, numerics, not claimed.)
+ * C03: converged => the curve search decided `converged` for the final bundle: both stopping tests evaluated true, with the
+ *      solver's epsilon, on the bundle version returned by its last solve; RQB: the returned state is that bundle's
+ *      proximity centre; FPBA: the returned (best) value is not above the centre's value (the centre is the momentum point,
+ *      the state the best of all centres; stated for a finite centre value: a momentum point with a non-finite value is
+ *      caught by the next search, which reports failed). */
+#define NV_BUNDLE_CONV (nv_econv.res && nv_sconv.res && nv_econv.at == nv_w_bver && nv_sconv.at == nv_w_bver && nv_w_bsolved == nv_w_bver \
+  && NV_SAME(nv_econv.eps, nv_epsilon) && NV_SAME(nv_sconv.eps, nv_epsilon))
+#define NV_PROX_GHOSTS nv_econv, nv_sconv, nv_status_at, nv_w_bver, nv_w_bsolved, nv_w_centre, nv_w_centre_fx
+#define NV_PROX_ENSURES_C02(EXTRA) \
+__CPROVER_ensures(NV_STATUS_OK(NV_RET.m_status)) \
+__CPROVER_ensures(NV_RET.ver != 0 && NV_CONS_FULL(NV_RET)) \
+__CPROVER_ensures(NV_COUNTS2_OK(NV_RET)) \
+__CPROVER_ensures(NV_RET.m_status != NVE_solver_status_failed ==> (NV_ISFIN(NV_RET.m_fx) && NV_RET.xfin)) \
+__CPROVER_ensures(nv_gcount <= nv_ver_counter && nv_ver_counter < 2000000000u && nv_ver_counter + nv_gcount < (uint64_t)nv_max_evals + 2 + 2 * (EXTRA))
+#if defined(NV_C03)
+#define NV_RQB_ENSURES NV_RQB_ENSURES_C03
+#define NV_FPBA_ENSURES NV_FPBA_ENSURES_C03
+#elif defined(NV_C02)
+#define NV_RQB_ENSURES NV_PROX_ENSURES_C02(0)
+#define NV_FPBA_ENSURES NV_PROX_ENSURES_C02(1) __CPROVER_ensures(NV_RET.m_fx <= nv_f0)
+#else
+#define NV_RQB_ENSURES NV_PROX_ENSURES_C02(0) NV_RQB_ENSURES_C03
+#define NV_FPBA_ENSURES NV_PROX_ENSURES_C02(1) __CPROVER_ensures(NV_RET.m_fx <= nv_f0) NV_FPBA_ENSURES_C03
+#endif
+#define NV_RQB_ENSURES_C03 \
+__CPROVER_ensures(NV_RET.m_status == NVE_solver_status_converged ==> (NV_BUNDLE_CONV && NV_RET.ver == nv_w_centre && NV_SAME(NV_RET.m_fx, nv_w_centre_fx)))
+#define NV_FPBA_ENSURES_C03 \
+__CPROVER_ensures(NV_RET.m_status == NVE_solver_status_converged ==> (NV_BUNDLE_CONV && (NV_ISFIN(nv_w_centre_fx) ==> NV_RET.m_fx <= nv_w_centre_fx)))
+#define NV_PROX_ASSIGNS __CPROVER_assigns(nv_ver_counter, nv_gcount, NV_PROX_GHOSTS, nv_seq_x)
+#define NV_PROX_STATE(s) ((s).m_status == NVE_solver_status_max_iters && (s).ver != 0 && NV_CONS_FULL(s) && NV_ISFIN((s).m_fx) && (s).xfin && NV_COUNTS2_OK(s))
+#define NV_PROX_INV(EXTRA) (NV_PROX_STATE(state) && 1 <= nv_ver_counter && nv_gcount <= nv_ver_counter && nv_ver_counter < 2000000000u \
+  && nv_ver_counter + nv_gcount < (uint64_t)nv_max_evals + 2 + 2 * (EXTRA) && nv_status_at <= nv_ver_counter \
+  && bundle.ver != 0 && bundle.m_x.id != 0 && nv_w_bver == bundle.ver && nv_w_bsolved == bundle.solved_ver && nv_w_centre == bundle.m_x.id && NV_SAME(nv_w_centre_fx, bundle.m_fx))
+#define NV_CONTRACT_rqb_do_minimize NV_NONLS_REQUIRES NV_PROX_ASSIGNS NV_RQB_ENSURES
+#define NV_LOOP_rqb_do_minimize_1 \
+__CPROVER_assigns(state, bundle, csearch, Gn, Gn1, nv_ver_counter, nv_gcount, NV_PROX_GHOSTS) \
+__CPROVER_loop_invariant(NV_PROX_INV(0) && state.ver == bundle.m_x.id && NV_SAME(state.m_fx, bundle.m_fx)) \
+NV_DECREASES2
+#define NV_CONTRACT_fpba_do_minimize NV_NONLS_REQUIRES NV_PROX_ASSIGNS NV_FPBA_ENSURES
+#define NV_LOOP_fpba_do_minimize_1 \
+__CPROVER_assigns(state, bundle, csearch, gx, nv_ver_counter, nv_gcount, NV_PROX_GHOSTS, nv_seq_x) \
+__CPROVER_loop_invariant(NV_PROX_INV(1) && state.m_fx <= nv_f0 && (NV_ISFIN(bundle.m_fx) ==> state.m_fx <= bundle.m_fx)) \
+NV_DECREASES2
+/* the lambda apply_nesterov_sequence(z, gz, fz) of fpba: offers (z, gz, fz) to the best state, moves the bundle to the momentum
+ * point x (one evaluation), offers that too */
+#define NV_CONTRACT_fpba_nesterov \
+__CPROVER_requires(__CPROVER_is_fresh(z, sizeof(*z)) && __CPROVER_is_fresh(gz, sizeof(*gz)) && __CPROVER_is_fresh(state, sizeof(*state)) && __CPROVER_is_fresh(bundle, sizeof(*bundle)) \
+  && __CPROVER_is_fresh(gx, sizeof(*gx)) && __CPROVER_is_fresh(function, sizeof(*function)) && __CPROVER_is_fresh(sequence, sizeof(*sequence))) \
+__CPROVER_requires(NV_TRIPLE(*z, *gz, fz) && NV_PROX_STATE(*state) && state->m_fx <= nv_f0 && nv_gcount <= nv_ver_counter && nv_ver_counter < 2000000000u) \
+__CPROVER_assigns(*state, *bundle, *gx, nv_ver_counter, nv_gcount, nv_w_bver, nv_w_bsolved, nv_w_centre, nv_w_centre_fx, nv_seq_x) \
+__CPROVER_ensures(NV_PROX_STATE(*state)) __CPROVER_ensures(state->m_fx <= nv_f0) __CPROVER_ensures(NV_ISFIN(bundle->m_fx) ==> state->m_fx <= bundle->m_fx) __CPROVER_ensures(!(state->m_fx > __CPROVER_old(state->m_fx))) \
+__CPROVER_ensures(nv_ver_counter == __CPROVER_old(nv_ver_counter) + 1 && nv_gcount == __CPROVER_old(nv_gcount) + 1) \
+__CPROVER_ensures(bundle->ver != 0 && bundle->m_x.id != 0 && nv_w_bver == bundle->ver && nv_w_bsolved == bundle->solved_ver && nv_w_centre == bundle->m_x.id && NV_SAME(nv_w_centre_fx, bundle->m_fx))
 #endif
